@@ -451,6 +451,14 @@ def enrich_psbt(b: bytes, rnd: random.Random) -> list[bytes]:
 
     if b"\x01\x03\x04" not in b[cuts[0]:cuts[1]]:
         out.append(rebuild({1: _kv(b"\x03", bytes(4))}))
+    # taproot leaf scripts on the first input under every class of leaf version octet (even and odd, 0xc0's neighbours, the annex tag, the extremes): the value is
+    # script || version and is kept as it is read; and a merkle root, an internal key, a key-path signature of 64 and of 65 octets
+    if b"\x15" not in b[cuts[0]:cuts[1]]:
+        for ver in (0xC0, 0xC1, 0xC2, 0x50, 0x51, 0x00, 0x01, 0xFE, 0xFF):
+            out.append(rebuild({1: _kv(b"\x15" + bytes([0xC0 | (ver & 1)]) + xonly + hashes[0], b"\x51\x75\x51" + bytes([ver]))}))
+        out.append(rebuild({1: _kv(b"\x18", hashes[1]) + _kv(b"\x17", xonly)}))
+        for siglen in (64, 65):
+            out.append(rebuild({1: _kv(b"\x13", bytes([7]) * siglen if siglen == 64 else bytes([7]) * 64 + b"\x83")}))
     return out
 
 
